@@ -6,14 +6,14 @@ from .. import common, evidence, replay, sim, tlc, tours, trace
 
 PID = 'C17'
 ACTIONS = ['Add', 'Discard', 'Remove', 'PopLast', 'PopFirst', 'Clear', 'IOr', 'IAnd', 'ISub',
-           'IXor', 'Pure', 'IterRemove', 'RevIterRemove', 'Eq', 'Ne', 'New', 'ISelf']
+           'IXor', 'Pure', 'IterRemove', 'RevIterRemove', 'Eq', 'Ne', 'New', 'ISelf', 'Swap']
 
 
 def cfg(n, maxarg, props=True):
     t = 'CONSTANTS\n  Elem = {%s}\n  MaxArg = %d\n' % (', '.join(str(i) for i in range(1, n + 1)), maxarg)
     if props:
         t += ('SPECIFICATION Spec\nINVARIANT TypeOK\nINVARIANT NoDuplicates\nPROPERTY SurvivorsKeepOrder\n'
-              'PROPERTY Frame\nPROPERTY PopsAreEnds\nCHECK_DEADLOCK FALSE\n')
+              'PROPERTY Frame\nPROPERTY PopsAreEnds\nPROPERTY OtherSetUntouched\nCHECK_DEADLOCK FALSE\n')
     return t
 
 
@@ -37,7 +37,7 @@ def random_runs(rnd, n, count, length):
                 rnd.sample(range(1, n + 1), rnd.randint(0, n))
             if name in ('Add', 'Discard', 'Remove'):
                 acts.append([name, rnd.randint(1, n)])
-            elif name in ('PopLast', 'PopFirst', 'Clear'):
+            elif name in ('PopLast', 'PopFirst', 'Clear', 'Swap'):
                 acts.append([name])
             elif name in ('IOr', 'IAnd', 'ISub', 'IXor', 'New'):
                 acts.append([name, seq(True)])
@@ -70,7 +70,7 @@ def check(tier, replay_path=None):
                              args=('-dump', 'dot,actionlabels', dot), timeout=900)
         g = tours.parse_dot(dot)
         os.remove(dot)
-        budget = 30000 if tier == 'quick' else None
+        budget = 30000 if tier == 'quick' else 400000     # (of about a million transitions)
         ts, covered, total = tours.tours(g, maxlen=40, budget=budget, seed=seed)
         runs = [{'cls': ('OrderedSet', 'QuerySet')[i % 2], 'acts': [to_act(l) for l in tr]}
                 for i, tr in enumerate(ts)]
